@@ -717,6 +717,21 @@ func Generate(t *rapid.T, cfg Cfg) *Layout {
 		paths["/a1"] = M{"$ref": "#/paths/~1p0"}
 		g.feat["form:pathitem-chain"]++
 	}
+	if cfg.PathChains && depth > 0 && g.chance(3, "pathfilechain") {
+		// a path item kept in a file of its own whose whole content is a reference again: to another
+		// whole file, or to a path of the root document
+		ef := g.elementFile("pathItem", root, depth)
+		hop := path.Join(path.Dir(root), "hops", fmt.Sprintf("hop%d.json", len(g.elems)+1))
+		if g.chance(2, "hoptofile") {
+			g.elems[hop] = M{"$ref": g.relSpelling(hop, ef)}
+			g.feat["form:pathitem-file-chain:file"]++
+		} else {
+			paths["/zend"] = M{"$ref": g.relSpelling(root, ef)}
+			g.elems[hop] = M{"$ref": g.relSpelling(hop, root) + "#/paths/~1zend"}
+			g.feat["form:pathitem-file-chain:fragment"]++
+		}
+		paths["/a2"] = M{"$ref": g.relSpelling(root, hop)}
+	}
 	// a few components of every kind in the root, some of them references
 	for _, kind := range jv.Keys(Section) {
 		if g.chance(3, "rootcomp:"+kind) {
